@@ -15,6 +15,7 @@ import (
 	"testing/synctest"
 
 	"seehuhn.de/go/sfnt"
+	"seehuhn.de/go/sfnt/cff"
 	"seehuhn.de/go/sfnt/glyf"
 	"seehuhn.de/go/sfnt/glyph"
 	"seehuhn.de/go/sfnt/opentype/coverage"
@@ -104,6 +105,7 @@ var (
 	fontGlyf    *sfnt.Font // Go Regular: TrueType with post names and cmap
 	fontNoNames *sfnt.Font // Go Regular without glyph names
 	fontNoCmap  *sfnt.Font // Go Regular without a character map
+	fontSomeNames *sfnt.Font // Go Regular, every third glyph without a name
 )
 
 func setup(string, uint64) {
@@ -113,6 +115,95 @@ func setup(string, uint64) {
 	fontNoNames.Outlines.(*glyf.Outlines).Names = nil
 	fontNoCmap = simgen.ReadGoFont(0)
 	fontNoCmap.CMapTable = nil
+	fontSomeNames = simgen.ReadGoFont(0)
+	names := fontSomeNames.Outlines.(*glyf.Outlines).Names
+	for i := range names {
+		if i%3 == 1 {
+			names[i] = ""
+		}
+	}
+}
+
+// renamed returns a fresh font (debug font or Go Regular) in which the names
+// of the glyphs for A, B, C ... are rotated by k places; k == 0 is the
+// original.  rename applies the same rotation in place.
+func freshFont(goFont bool) *sfnt.Font {
+	if goFont {
+		return simgen.ReadGoFont(0)
+	}
+	return debug.MakeSimpleFont()
+}
+
+func rename(f *sfnt.Font, k int) {
+	best, _ := f.CMapTable.GetBest()
+	var gids []glyph.ID
+	for r := 'A'; r <= 'H'; r++ {
+		gids = append(gids, best.Lookup(r))
+	}
+	old := make([]string, len(gids))
+	for i, g := range gids {
+		old[i] = f.GlyphName(g)
+	}
+	set := func(g glyph.ID, name string) {
+		switch o := f.Outlines.(type) {
+		case *glyf.Outlines:
+			o.Names[g] = name
+		case *cff.Outlines:
+			o.Glyphs[g].Name = name
+		}
+	}
+	for i, g := range gids {
+		set(g, old[(i+k)%len(gids)])
+	}
+}
+
+// runHistory: Parse must depend on the font as it is now, not on what an
+// earlier call saw - the same font object is parsed with, its glyph names
+// are changed in place, and it is parsed with again; a fresh font object with
+// the same names must give the same result.
+func runHistory(c *wk.Case) {
+	t := c.T
+	goFont := t.Chance(1, 2)
+	k := t.Range(1, 5)
+	var blocks []string
+	for _, sample := range []string{gsubSample, gposSample} {
+		for _, l := range lines(sample) {
+			if strings.HasPrefix(l, "GSUB") && !strings.HasSuffix(l, ":") && !strings.HasSuffix(l, "||") {
+				blocks = append(blocks, l)
+			}
+		}
+	}
+	text1 := blocks[t.Draw(len(blocks))] + "\n"
+	text2 := blocks[t.Draw(len(blocks))] + "\n"
+	c.Sample = map[string]any{"kind": "history", "go_font": goFont, "rotate": k, "first": text1, "second": text2}
+	c.Logf("history: font go=%v; Parse(%q); rotate names of A..H by %d in place; Parse(%q)", goFont, text1, k, text2)
+	c.SigString(fmt.Sprintf("history %v %d %s %s", goFont, k, text1, text2))
+	used := freshFont(goFont)
+	first := parseInBubble(c, used, text1)
+	if first.panicked != nil {
+		c.FailPanic("Parse", first.panicked)
+	}
+	rename(used, k)
+	second := parseInBubble(c, used, text2)
+	fresh := freshFont(goFont)
+	rename(fresh, k)
+	want := parseInBubble(c, fresh, text2)
+	c.Count("parses", 3)
+	c.Count("history_cases", 1)
+	for _, o := range []outcome{first, second, want} {
+		if o.panicked != nil {
+			c.FailPanic("Parse", o.panicked)
+		}
+		if o.deadlock || len(o.leaks) > 0 {
+			c.Fail("goroutine-leak", "history/"+strings.Join(dedupe(o.leaks), "+"), "goroutines left blocked: %v", o.leaks)
+		}
+	}
+	if (second.err == nil) != (want.err == nil) || (second.err != nil && second.err.Error() != want.err.Error()) {
+		c.Fail("history-dependence", "Parse/error", "after the glyph names were changed in place, Parse on the font object used before gives %v, on a fresh font object with the same names %v\n--- description\n%s", second.err, want.err, text2)
+	}
+	if d := simgen.DeepDiff(want.lookups, second.lookups, 0, false); d != "" {
+		c.Fail("history-dependence", "Parse/lookups", "after the glyph names were changed in place, Parse on the font object used before and on a fresh font object with the same names differ: %s\n--- description\n%s", d, text2)
+	}
 }
 
 // ---- the scheduler inside the bubble -------------------------------------------------
@@ -347,7 +438,9 @@ type constructed struct {
 
 func genText(c *wk.Case) (font *sfnt.Font, fontName, text, kind string, cons *constructed) {
 	t := c.T
-	switch t.Weighted(10, 4, 4, 1) {
+	switch t.Weighted(10, 4, 4, 1, 3) {
+	case 4:
+		font, fontName = fontSomeNames, "goregular(every third glyph unnamed,cmap)"
 	case 0:
 		font, fontName = fontNamed, "debug(A-Z,names,cmap)"
 	case 1:
@@ -514,6 +607,10 @@ func genText(c *wk.Case) (font *sfnt.Font, fontName, text, kind string, cons *co
 var lineNo = regexp.MustCompile(`^(\d+):`)
 
 func run(c *wk.Case) {
+	if c.T.Chance(1, 12) {
+		runHistory(c)
+		return
+	}
 	font, fontName, text, kind, cons := genText(c)
 	c.Sample = map[string]any{"font": fontName, "kind": kind, "text": text}
 	c.Logf("font %s, text kind %s:\n%s", fontName, kind, text)
